@@ -292,6 +292,12 @@ func (r *Run) RunWorkers(sp *WorkerSpace) {
 			for j := range jobs {
 				lo := j.lo
 				for lo < j.hi {
+					if hangs.Load() > 20 || unisolated.Load() > 20 || r.Expired() {
+						// the verdict is settled (inputs that hang or kill the process have been recorded): waiting
+						// out the deadline of every further one would take for ever; the run is marked non-exhaustive
+						r.truncated.Store(true)
+						break
+					}
 					res := runBatch(sp, lo, j.hi, sp.Timeout)
 					if res.ok {
 						absorb(res)
